@@ -61,6 +61,7 @@ def run(ctx) -> None:
     r12_4(ctx, info)
     r12_5(ctx, info)
     r12_6(ctx)
+    r12_7(ctx, info)
     ctx.floor("slot_tests", 2)
 
 
@@ -291,6 +292,35 @@ def r12_5(ctx, info) -> None:
                           and [norm(a) for a in r.info["value"].args] == ["self._instance", "self._name"] for r in rets)
         ctx.check(bool(ok), "R12.5", u, rets[0] if rets else h,
                   "after deletion the access restarts through the descriptor: getattr(instance, name)", node=h)
+
+
+def r12_7(ctx, info) -> None:
+    """The instance dict is the only place a value (or a claim on it) lives: the placeholder
+    keeps no copy of the result and every await goes through the slot read."""
+    ctx.rule("R12.7", "the placeholder keeps no second copy of the value; every await goes through the instance slot")
+    aw = info.methods["__await__"]
+    rets = [n for n in own_nodes(aw.node) if isinstance(n, ast.Return)]
+    ok = len(rets) == 1 and norm(rets[0].value) == "self._await_impl().__await__()" and \
+        not any(isinstance(n, (ast.If, ast.IfExp, ast.Try)) for n in own_nodes(aw.node))
+    ctx.check(ok, "R12.7", aw, rets[0] if rets else "__await__",
+              "every await of the placeholder re-reads the instance slot (so a deleted or replaced value is never "
+              "served from the placeholder)")
+    for mname, m in info.methods.items():
+        if mname == "__init__":
+            continue
+        for s in own_nodes(m.node):
+            targets = []
+            if isinstance(s, ast.Assign):
+                targets = [x for t in s.targets for x in ast.walk(t)]
+            elif isinstance(s, (ast.AugAssign, ast.AnnAssign)):
+                targets = list(ast.walk(s.target))
+            for t in targets:
+                if isinstance(t, ast.Attribute) and isinstance(t.ctx, ast.Store) and isinstance(t.value, ast.Name) \
+                        and t.value.id == "self":
+                    ctx.fail("R12.7", m, s, f"the placeholder stores state on itself (`self.{t.attr}`) after construction: "
+                             "a value kept outside the instance dict survives `del` and is invisible to other awaiters",
+                             line=s.lineno)
+    ctx.ok("R12.7", PLACEHOLDER, "checked: the placeholder is immutable after construction")
 
 
 def r12_6(ctx) -> None:
